@@ -352,6 +352,17 @@ def rule_prov_assert(crate):
         out.ok("assert_eq/3:zero-tolerance", f, fe["line"], "a zero tolerance does not determine the comparison unit")
     elif three:
         out.violation("assert_eq/3:zero-tolerance", f, fe["line"], "assert_eq(a, b, eps) converts a and b into eps's unit unconditionally: with the polymorphic literal `0` as tolerance (`assert_eq(1 m, 1 m, 0)` type-checks) eps carries the scalar unit and the conversion fails at run time")
+    # … and the fall-back unit must not come from a zero either: `assert_eq(1 m, 0, 0)` type-checks (both zeros are
+    # polymorphic), so if the unit is taken from the second argument when eps is zero, the second argument has to be
+    # tested for zero as well (falling back to the first), or a zero-aware selector (comparison_unit) has to choose
+    if three and zero_tests:
+        rhs_tests = [n for n in walk(fe["body"]) if n.get("k") == "MethodCall" and n["name"] == "is_zero" and operand_prov(n["recv"], inits, ids) == {rhs["id"]}]
+        aware = any(n.get("k") == "MethodCall" and n["name"] == "comparison_unit" for n in walk(fe["body"]))
+        unit_from_rhs = any(n.get("k") == "MethodCall" and n["name"] == "unit" and operand_prov(n["recv"], inits, ids) == {rhs["id"]} for n in walk(fe["body"]))
+        if not unit_from_rhs or rhs_tests or aware:
+            out.ok("assert_eq/3:zero-expected-value", f, fe["line"], "a zero second argument does not determine the comparison unit either")
+        else:
+            out.violation("assert_eq/3:zero-expected-value", f, fe["line"], "with a zero tolerance the comparison unit is taken from the second argument without testing it for zero: `assert_eq(3 m - 2 m, 0, 0)` type-checks and fails with a conversion error (unit 'm' can not be converted to '') instead of reporting the failed assertion")
     recvs = [operand_prov(c["recv"], inits, ids) for c in three]
     if len(three) == 2 and {frozenset(r) for r in recvs} == {frozenset({lhs["id"]}), frozenset({rhs["id"]})}:
         out.ok("assert_eq/3:conversion", *crate.loc(fe, three[0]), detail="both values are converted to the unit of eps")
